@@ -4,6 +4,7 @@ import DilithiumVerif.Lemmas.IterComplete
 import DilithiumVerif.Lemmas.SignLoop
 import DilithiumVerif.Lemmas.EndToEnd
 import DilithiumVerif.Lemmas.VerifyFips
+import DilithiumVerif.Props.C11
 /-
   C01 — Every signature the library produces verifies (all sets, all modes).
   Part 1 (loop logic): the signing loop can end only by returning the signature packed by an accepted
@@ -131,5 +132,44 @@ theorem emitted_signature_spec_verifies (p : Params) (hp : p ∈ allParams) (see
     (hs : signature p fuel msg sk randomized tape2 = .ok (some sig, tape3))
     (hpb : ∀ b ∈ pk, b < 256) (hb : ∀ b ∈ sig, b < 256) : IsAccepted p pk msg sig :=
   VerifyFips.emitted_signature_spec_verifies p hp seed tape pk sk tape' hk fuel msg randomized tape2 sig tape3 hs hpb hb
+
+/-- what `Keypair::generate` returns is what `keypair` returned (the containers take the two keys as they are) -/
+theorem generate_is_keypair (p : Params) (e : Option (List Nat)) (tape : Tape) (sk pk : List Nat) (tape' : Tape)
+    (hg : keypair_generate p e tape = .ok (sk, pk, tape')) :
+    keypair p e tape = .ok (pk, sk, tape') ∧ sk.length = p.skBytes ∧ pk.length = p.pkBytes := by
+  unfold keypair_generate at hg
+  obtain ⟨⟨pk0, sk0, t0⟩, hk, hg⟩ := bind_eq_ok.mp hg
+  simp only at hg
+  obtain ⟨sk1, h1, hg⟩ := bind_eq_ok.mp hg
+  obtain ⟨pk1, h2, hg⟩ := bind_eq_ok.mp hg
+  injection hg with hg; injection hg with e1 hg; injection hg with e2 e3
+  obtain ⟨l1, rfl⟩ := (C11.from_bytes_iff _ _ _).mp h1
+  obtain ⟨l2, rfl⟩ := (C11.from_bytes_iff _ _ _).mp h2
+  subst e1; subst e2; subst e3
+  exact ⟨hk, l1, l2⟩
+
+/-- **the `Keypair` object**: a key pair made by `Keypair::generate` (seeded or not), stored and reloaded through
+    `to_bytes` / `from_bytes`, verifies with `Keypair::verify` / `prehash_verify` every signature that
+    `Keypair::sign` / `prehash_sign` returns under it — ML-DSA (any context, hedged or not, either pre-hash) and Dilithium -/
+theorem keypair_object_sign_then_verify (p : Params) (hp : p ∈ allParams) (e : Option (List Nat)) (tape : Tape) (sk pk : List Nat)
+    (tape' : Tape) (hg : keypair_generate p e tape = .ok (sk, pk, tape')) :
+    (∀ fuel msg ctx hedged t2 sig t3, kp_mldsa_sign p fuel (keypair_to_bytes sk pk) msg ctx hedged t2 = .ok (some sig, t3) →
+        kp_mldsa_verify p (keypair_to_bytes sk pk) msg sig ctx = .ok true) ∧
+    (∀ fuel phm ctx hedged ph t2 sig t3, kp_mldsa_prehash_sign p fuel (keypair_to_bytes sk pk) phm ctx hedged ph t2 = .ok (some sig, t3) →
+        kp_mldsa_prehash_verify p (keypair_to_bytes sk pk) phm sig ctx ph = .ok true) ∧
+    (∀ fuel msg sig, kp_dil_sign p fuel (keypair_to_bytes sk pk) msg = .ok (some sig) →
+        kp_dil_verify p (keypair_to_bytes sk pk) msg sig = .ok true) := by
+  obtain ⟨hk, ls, lp⟩ := generate_is_keypair p e tape sk pk tape' hg
+  obtain ⟨a1, a2, a3, a4, a5, a6⟩ := C11.keypair_entry_points p sk pk ls lp
+  refine ⟨?_, ?_, ?_⟩
+  · intro fuel msg ctx hedged t2 sig t3 hs
+    rw [a1] at hs; rw [a3]
+    exact mldsa_sign_then_verify p hp e tape pk sk tape' hk fuel msg ctx hedged t2 sig t3 hs
+  · intro fuel phm ctx hedged ph t2 sig t3 hs
+    rw [a2] at hs; rw [a4]
+    exact mldsa_prehash_sign_then_verify p hp e tape pk sk tape' hk fuel phm ctx hedged ph t2 sig t3 hs
+  · intro fuel msg sig hs
+    rw [a5] at hs; rw [a6]
+    exact dil_sign_then_verify p hp e tape pk sk tape' hk fuel msg sig hs
 
 end DV.C01
